@@ -167,6 +167,7 @@ SPAWN = {
     'callsites': {
         # C03: the child is re-invoked with '--resume-layer <name> <n>', the parent's defaults and its original arguments
         'subprocess.Popen': [
+            "has_kw_cwd", "_kw_cwd == cwd",             # C03: started in the directory handed down from run_internal (startdir_c03)
             "args[0] == executable()",
             "args[len(args) - (len(options.original_testrunner_args) - 1) - 2 * len(options.testrunner_defaults) - 3] == '--resume-layer'",
             "args[len(args) - (len(options.original_testrunner_args) - 1) - 2 * len(options.testrunner_defaults) - 2] == layer_name",
